@@ -228,6 +228,18 @@ static void check_store_prefix (Verdict &v, const J &plan, const Result &r, cons
 	if (cls == "RW" && !rw_seek) return ;
 	if (cls == "RW" && !(f.sample_granular () && !f.lossy)) return ;
 	std::string where = fopk == "write" ? "@audio_write" : fopk == "cmd" ? "@header_update" : fopk == "close" ? "@close" : "@" + fopk ;
+	// frames that had reached the I/O layer when the fault fired, counted from the size of the store at that instant (append-only
+	// writers, encodings with a fixed number of bytes per block): for these the value to survive is known even when the snapshot
+	// cannot be decoded, e.g. at the first header update of a file whose stored header still says "no frames"
+	int64_t handed_items = 0 ;
+	if (cls == "W")
+	{	const std::string path = "/sim/cwd/f0.dat" ;
+		auto fs = r.fault_snapshot.find (path) ; auto od = base.dataoffsets.find ("f0.dat") ;
+		int64_t blockbytes = f.major == SF_FORMAT_SDS ? 127 : (f.sample_granular () && !f.lossy) ? (int64_t) ch * (f.is_double ? 8 : f.is_float ? 4 : f.bits / 8) : 0 ;
+		bool seeks = false ; for (auto &o : ops.a) if (o.gets ("op") == "seek") seeks = true ;
+		if (fs != r.fault_snapshot.end () && od != base.dataoffsets.end () && od->second > 0 && blockbytes > 0 && !seeks && (int64_t) fs->second.size () > od->second)
+			handed_items = std::min<int64_t> (frames, (((int64_t) fs->second.size () - od->second) / blockbytes) * B) * ch ;
+	}
 	auto kb = base.kept.find (1), kr = r.kept.find (1) ;
 	if (kb == base.kept.end () || kr == r.kept.end () || frames == 0) { v.probes ["store_prefix_not_recoverable"] ++ ; return ; }
 	// decode the snapshot taken at the instant of the fault
@@ -255,7 +267,19 @@ static void check_store_prefix (Verdict &v, const J &plan, const Result &r, cons
 	int64_t items = std::min<int64_t> ({ frames * ch, (int64_t) kr->second.size (), (int64_t) kb->second.size () }) ;
 	int64_t compared = 0 ;
 	for (int64_t k = 0 ; k < items ; k++)
-	{	if (k >= (int64_t) snap.size ()) break ;		// the snapshot's own header did not cover this frame yet: nothing to compare with
+	{	if (k >= (int64_t) snap.size ())
+		{	// the snapshot's own header did not cover this frame yet: only frames known to have been handed over can be judged
+			if (k >= handed_items) break ;
+			compared ++ ;
+			if (kr->second [k] != kb->second [k])
+			{	Finding fd ; char b [260] ;
+				snprintf (b, sizeof (b), "item %lld (of %lld frames that existed before the fault, %lld items of them in the store at that instant) decodes to 0x%llx after the faulted run; it was written as 0x%llx",
+					(long long) k, (long long) frames, (long long) handed_items, (unsigned long long) kr->second [k], (unsigned long long) kb->second [k]) ;
+				fd.sig = make_sig_raw ("C15", "store.prefix", f.name, plan.at ("cfg").gets ("route"), fj.gets ("kind"), "changed" + where) ; fd.detail = b ;
+				v.findings.push_back (fd) ; return ;
+			}
+			continue ;
+		}
 		compared ++ ;
 		if (kr->second [k] != kb->second [k] && kr->second [k] != snap [k] && !(k < (int64_t) alt.size () && kr->second [k] == alt [k]))
 		{	Finding fd ; char b [260] ;
